@@ -353,10 +353,18 @@ def resolution_contract(ctx, py: PyRepo):
         for w in ('l', 'r'):
             rest = None
             for c, b in p.conds:
-                if c[0] == 'cmp' and c[1] == '==' and c[3] == ('const', 0) and c[2][0] == 'call' and c[2][1] == ('name', 'len') \
-                        and ('item', simp[w], 0) in list(_walk(c[2])):
-                    empt[w] = b
-                    rest = c[2][2][0]
+                # an emptiness test of the remainder X of that parent: len(X) == 0 | len(X) > 0 | len(X) | X (truthiness)
+                x, empty = None, None
+                if c[0] == 'cmp' and c[1] in ('==', '>', '<', '>=', '<=') and c[2][0] == 'call' and c[2][1] == ('name', 'len') and len(c[2][2]) == 1:
+                    x = c[2][2][0]
+                    empty = {('==', 0): b, ('>', 0): not b, ('<=', 0): b, ('>=', 1): not b, ('<', 1): b}.get((c[1], c[3][1] if c[3][0] == 'const' else None))
+                elif c[0] == 'call' and c[1] == ('name', 'len') and len(c[2]) == 1:
+                    x, empty = c[2][0], not b
+                elif c[0] in ('sub', 'slice', 'name', 'item', 'rest'):
+                    x, empty = c, not b
+                if x is not None and empty is not None and ('item', simp[w], 0) in list(_walk(x)) and w not in empt:
+                    empt[w] = empty
+                    rest = x
             ctx.require(w in empt, 'build_proof_from_hint: emptiness case of a remainder not found on the path')
             simp[w + '_rest'] = rest
         CL = {'l': (NEGP if empt['l'] else N.apply('_or', [NEGP, A])), 'r': (P if empt['r'] else N.apply('_or', [P, B]))}
@@ -502,51 +510,56 @@ def literal_encoding(ctx, py: PyRepo):
     """clauses are lists of non-zero integers: to_clauses encodes variable t as t+1 and its negation as -(t+1); id_to_metavar decodes.
     The two are inverse (linear arithmetic on the index expressions), and the signs cannot meet (0 is excluded)."""
     from .c16 import Lin
+    from ..core.pyeval import PyEval
     tc = py.method('Tautology', 'to_clauses')
     dec = py.function('tautology', 'id_to_metavar')
     where = py.where('tautology', tc)
-    TERM = tc.args.args[1].arg
-    # encoder: in the CFVar branch, `id = <expr>` under term.negated / not
+    TERM = ('param', tc.args.args[1].arg)
+    # encoder: on the paths of the variable case, the single literal of the single clause returned, by polarity of term.negated
     enc = {}
-    for node in ast.walk(tc):
-        if isinstance(node, ast.If) and ast.unparse(node.test) == f'{TERM}.negated':
-            for pol, blk in ((True, node.body), (False, node.orelse)):
-                for st in blk:
-                    if isinstance(st, ast.Assign) and isinstance(st.targets[0], ast.Name) and st.targets[0].id == 'id':
-                        enc[pol] = st.value
-    ctx.require(set(enc) == {True, False}, 'to_clauses: literal numbering of a variable not found')
-    # decoder: `if id < 0: return neg(MetaVar(<expr>))` / `return MetaVar(<expr>)`
-    P = dec.args.args[0].arg
+    for p in PyEval().paths(tc):
+        if p.end[0] != 'return' or not any(c == ('call', ('name', 'isinstance'), (TERM, ('name', 'CFVar')), ()) and b for c, b in p.conds):
+            continue
+        rv = p.end[1]
+        pols = {b for c, b in p.conds if c == ('attr', TERM, 'negated')}
+        if rv[0] == 'tuple' and rv[1] and rv[1][0][0] == 'list' and len(rv[1][0][1]) == 1 and rv[1][0][1][0][0] == 'list' \
+                and len(rv[1][0][1][0][1]) == 1 and len(pols) == 1:
+            enc.setdefault(next(iter(pols)), set()).add(rv[1][0][1][0][1][0])
+    ctx.require(set(enc) == {True, False} and all(len(v) == 1 for v in enc.values()), 'to_clauses: literal numbering of a variable not found')
+    enc = {k: next(iter(v)) for k, v in enc.items()}
+    # decoder: by sign of the number, the argument of MetaVar in the returned pattern (under neg(..) for negative numbers)
+    P = ('param', dec.args.args[0].arg)
     dd = {}
-    for node in dec.body:
-        if isinstance(node, ast.If) and ast.unparse(node.test) == f'{P} < 0':
-            for r in ast.walk(node):
-                if isinstance(r, ast.Return):
-                    m = [c for c in ast.walk(r.value) if isinstance(c, ast.Call) and ast.unparse(c.func) == 'MetaVar']
-                    if m and ast.unparse(r.value).startswith('neg('):
-                        dd[True] = m[0].args[0]
-        if isinstance(node, ast.Return):
-            m = [c for c in ast.walk(node.value) if isinstance(c, ast.Call) and ast.unparse(c.func) == 'MetaVar']
-            if m and not ast.unparse(node.value).startswith('neg('):
-                dd[False] = m[0].args[0]
-    ctx.require(set(dd) == {True, False}, 'id_to_metavar: decoding of a literal not found')
-    def lin(e, sub):
-        """linear form of e with Name/Attribute leaves mapped through sub"""
-        if isinstance(e, (ast.Attribute, ast.Name)) and ast.unparse(e) in sub:
-            return sub[ast.unparse(e)]
-        if isinstance(e, ast.Constant) and isinstance(e.value, int):
-            return Lin(e.value)
-        if isinstance(e, ast.UnaryOp) and isinstance(e.op, ast.USub):
-            return lin(e.operand, sub).scale(-1)
-        if isinstance(e, ast.BinOp) and isinstance(e.op, (ast.Add, ast.Sub)):
-            r = lin(e.right, sub)
-            return lin(e.left, sub) + (r if isinstance(e.op, ast.Add) else r.scale(-1))
-        raise ValueError(ast.unparse(e))
+    for p in PyEval().paths(dec):
+        if p.end[0] != 'return':
+            continue
+        neg_pol = [b for c, b in p.conds if c == ('cmp', '<', P, ('const', 0))] + [not b for c, b in p.conds if c == ('cmp', '>=', P, ('const', 0))] \
+            + [not b for c, b in p.conds if c == ('cmp', '>', P, ('const', 0))]
+        rv = p.end[1]
+        negated = rv[0] == 'call' and rv[1] == ('name', 'neg') and len(rv[2]) == 1
+        inner = rv[2][0] if negated else rv
+        if len(set(neg_pol)) == 1 and inner[0] == 'call' and inner[1] == ('name', 'MetaVar') and len(inner[2]) == 1 and negated == neg_pol[0]:
+            dd.setdefault(neg_pol[0], set()).add(inner[2][0])
+    ctx.require(set(dd) == {True, False} and all(len(v) == 1 for v in dd.values()), 'id_to_metavar: decoding of a literal not found')
+    dd = {k: next(iter(v)) for k, v in dd.items()}
+
+    def lin(v, sub):
+        """linear form of a value with the leaves in `sub` replaced"""
+        if v in sub:
+            return sub[v]
+        if v[0] == 'const' and isinstance(v[1], int) and not isinstance(v[1], bool):
+            return Lin(v[1])
+        if v[0] == 'unop' and v[1] == 'USub':
+            return lin(v[2], sub).scale(-1)
+        if v[0] == 'binop' and v[1] in ('Add', 'Sub'):
+            r = lin(v[3], sub)
+            return lin(v[2], sub) + (r if v[1] == 'Add' else r.scale(-1))
+        raise ValueError(repr(v)[:80])
 
     t = Lin(0, {'t': 1})
     for pol in (True, False):
         try:
-            code = lin(enc[pol], {f'{TERM}.id': t})
+            code = lin(enc[pol], {('attr', TERM, 'id'): t})
             back = lin(dd[pol], {P: code})
             sign_ok = (code.t.get('t') == -1 and code.c < 0) if pol else (code.t.get('t') == 1 and code.c > 0)
             ctx.ob('literal-encoding', 'negative' if pol else 'positive', back == t and sign_ok,
@@ -586,13 +599,17 @@ def clauses_stage_contract(ctx, py: PyRepo, max_k: int = 4):
         return t
 
     class Unroll(ast.NodeTransformer):
-        def __init__(self, k):
+        def __init__(self, k, lens=None):
             self.k, self.i = k, None
+            # the length variables: locals whose definition is `len(..)` of a recursive result
+            self.lens = lens if lens is not None else {
+                n.targets[0].id for n in ast.walk(src_fn) if isinstance(n, ast.Assign) and len(n.targets) == 1
+                and isinstance(n.targets[0], ast.Name) and isinstance(n.value, ast.Call) and ast.unparse(n.value.func) == 'len'}
 
         def _int(self, e):
             if isinstance(e, ast.Constant) and isinstance(e.value, int):
                 return e.value
-            if isinstance(e, ast.Name) and e.id == 'l':
+            if isinstance(e, ast.Name) and e.id in self.lens:
                 return self.k
             if isinstance(e, ast.BinOp) and isinstance(e.op, (ast.Add, ast.Sub)):
                 a, b = self._int(e.left), self._int(e.right)
@@ -616,7 +633,7 @@ def clauses_stage_contract(ctx, py: PyRepo, max_k: int = 4):
             t = node.test
             if isinstance(t, ast.Compare) and len(t.ops) == 1:
                 a, b = self._int(t.left), self._int(t.comparators[0])
-                if a is not None and b is not None and 'l' in ast.unparse(t):
+                if a is not None and b is not None and any(isinstance(x, ast.Name) and x.id in self.lens for x in ast.walk(t)):
                     val = {ast.Gt: a > b, ast.GtE: a >= b, ast.Lt: a < b, ast.LtE: a <= b, ast.Eq: a == b, ast.NotEq: a != b}.get(type(t.ops[0]))
                     if val is not None:
                         out = []
@@ -644,10 +661,34 @@ def clauses_stage_contract(ctx, py: PyRepo, max_k: int = 4):
     n = 0
     for branch, op in (('CFAnd', '_and'), ('CFOr', '_or')):
         for k in range(1, max_k + 1):
-            fn = Unroll(k).visit(copy.deepcopy(src_fn))
+            un = Unroll(k)
+            fn = un.visit(copy.deepcopy(src_fn))
             ast.fix_missing_locations(fn)
+            taut = py.cls('Tautology')
+
+            def resolver(call, env, _ev, un=un, k=k):
+                """a helper method that receives the length and runs the re-association loop: evaluated in place, its loop unrolled
+                for the same k (the parameter bound to a length variable is the constant k inside)"""
+                f = call.func
+                if not (isinstance(f, ast.Attribute) and isinstance(f.value, ast.Name) and f.value.id == 'self'):
+                    return None
+                hit = py.find_method(taut, f.attr)
+                if hit is None or f.attr == src_fn.name:
+                    return None
+                h = hit[1]
+                if not any(isinstance(x, ast.For) for x in ast.walk(h)):
+                    return None
+                params = [a.arg for a in h.args.args[1:]]
+                lens = {pn for pn, a in zip(params, call.args) if isinstance(a, ast.Name) and a.id in un.lens}
+                if not lens:
+                    return None
+                hk = Unroll(k, lens).visit(copy.deepcopy(h))
+                ast.fix_missing_locations(hk)
+                if any(isinstance(x, (ast.For, ast.While)) for x in ast.walk(hk)):
+                    return None
+                return hk, SELF
             try:
-                paths = [p for p in PyEval().paths(fn) if p.end[0] == 'return'
+                paths = [p for p in PyEval(resolver=resolver).paths(fn) if p.end[0] == 'return'
                          and dict(p.conds).get(('call', ('name', 'isinstance'), (TERM, ('name', branch)), ())) is True]
             except Exception as ex:  # noqa: BLE001 - the unrolled tree left the evaluated subset
                 ctx.require(False, f'to_clauses unrolled for k={k}: {ex}')
@@ -755,9 +796,9 @@ def fold_direction(ctx, py: PyRepo):
     right_nested = any(isinstance(n, _ast.Call) and isinstance(n.func, _ast.Name) and n.func.id == 'foldr_op' for n in _ast.walk(tgt))
     left_nested = any(isinstance(n, _ast.Call) and isinstance(n.func, _ast.Name) and n.func.id == 'foldl_op' for n in _ast.walk(tgt))
     ctx.require(right_nested != left_nested, 'clause_conjunctionto_pattern: cannot tell how the conjunction is nested')
-    loops = [n for n in _ast.walk(fn) if isinstance(n, _ast.For) and isinstance(n.target, _ast.Name)]
-    found = 0
-    for lp in loops:
+    # a fold, in either spelling: (the element is the FIRST argument of and_intro, iterable, text of the initial accumulator, label, text)
+    folds = []
+    for lp in [n for n in _ast.walk(fn) if isinstance(n, _ast.For) and isinstance(n.target, _ast.Name)]:
         x = lp.target.id
         for st in lp.body:
             if isinstance(st, _ast.Assign) and isinstance(st.targets[0], _ast.Name) and isinstance(st.value, _ast.Call) \
@@ -766,26 +807,33 @@ def fold_direction(ctx, py: PyRepo):
                 a0, a1 = _ast.unparse(st.value.args[0]), _ast.unparse(st.value.args[1])
                 if {a0, a1} != {x, acc}:
                     continue
-                found += 1
-                prepend = a0 == x
-                it = lp.iter
-                rev = isinstance(it, _ast.Call) and isinstance(it.func, _ast.Name) and it.func.id == 'reversed'
-                seq = it.args[0] if rev else it
-                sl = _ast.unparse(seq.slice) if isinstance(seq, _ast.Subscript) else None
                 inits = [n for n in _ast.walk(fn) if isinstance(n, _ast.Assign) and isinstance(n.targets[0], _ast.Name) and n.targets[0].id == acc
                          and n.lineno < lp.lineno]
-                init = _ast.unparse(inits[-1].value) if inits else ''
-                base = _ast.unparse(seq.value) if isinstance(seq, _ast.Subscript) else _ast.unparse(seq)
-                if right_nested:
-                    ok = prepend and rev and sl == ':-2' and init == f'self.and_intro({base}[-2], {base}[-1])'
-                    want = f'start from and_intro({base}[-2], {base}[-1]) and prepend the elements of reversed({base}[:-2])'
-                else:
-                    ok = (not prepend) and (not rev) and sl == '2:' and init == f'self.and_intro({base}[0], {base}[1])'
-                    want = f'start from and_intro({base}[0], {base}[1]) and append the elements of {base}[2:]'
-                ctx.ob('fold-direction', f'start_resolution_algorithm/{acc}', ok,
-                       f'the proofs are combined as `{_ast.unparse(st)}` over `{_ast.unparse(it)}` starting from `{init}`; to prove the clauses '
-                       f'conjoined in the order clause_conjunctionto_pattern nests them the loop must {want} - with four or more clauses the '
-                       f'conclusion is a reordered conjunction', where)
+                folds.append((a0 == x, lp.iter, _ast.unparse(inits[-1].value) if inits else '', acc, _ast.unparse(st)))
+    for c in [n for n in _ast.walk(fn) if isinstance(n, _ast.Call) and _ast.unparse(n.func) in ('reduce', 'functools.reduce') and len(n.args) == 3]:
+        lam = c.args[0]
+        if isinstance(lam, _ast.Lambda) and len(lam.args.args) == 2 and isinstance(lam.body, _ast.Call) \
+                and _ast.unparse(lam.body.func) == 'self.and_intro' and len(lam.body.args) == 2:
+            acc, x = lam.args.args[0].arg, lam.args.args[1].arg                  # reduce(f, xs, init): f(accumulator, element)
+            a0, a1 = _ast.unparse(lam.body.args[0]), _ast.unparse(lam.body.args[1])
+            if {a0, a1} == {x, acc}:
+                folds.append((a0 == x, c.args[1], _ast.unparse(c.args[2]), 'reduce', _ast.unparse(lam)))
+    found = len(folds)
+    for prepend, it, init, acc, step_txt in folds:
+        rev = isinstance(it, _ast.Call) and isinstance(it.func, _ast.Name) and it.func.id == 'reversed'
+        seq = it.args[0] if rev else it
+        sl = _ast.unparse(seq.slice) if isinstance(seq, _ast.Subscript) else None
+        base = _ast.unparse(seq.value) if isinstance(seq, _ast.Subscript) else _ast.unparse(seq)
+        if right_nested:
+            ok = prepend and rev and sl == ':-2' and init == f'self.and_intro({base}[-2], {base}[-1])'
+            want = f'start from and_intro({base}[-2], {base}[-1]) and prepend the elements of reversed({base}[:-2])'
+        else:
+            ok = (not prepend) and (not rev) and sl == '2:' and init == f'self.and_intro({base}[0], {base}[1])'
+            want = f'start from and_intro({base}[0], {base}[1]) and append the elements of {base}[2:]'
+        ctx.ob('fold-direction', f'start_resolution_algorithm/{acc}', ok,
+               f'the proofs are combined as `{step_txt}` over `{_ast.unparse(it)}` starting from `{init}`; to prove the clauses '
+               f'conjoined in the order clause_conjunctionto_pattern nests them the loop must {want} - with four or more clauses the '
+               f'conclusion is a reordered conjunction', where)
     ctx.require(found >= 1, 'start_resolution_algorithm: the fold over the trivial-clause proofs was not found')
 
 
